@@ -25,8 +25,16 @@ type Def struct {
 // sequential execution (C02), if results depend on which cache files exist (C07) or if index filtering changes results (C15).
 var Includes = map[string][]string{
 	"C01": {"C02", "C07", "C09", "C15"},
+	// the partials that are merged are "each saved to and reloaded from its snapshot file" (statement of C02): the merge
+	// equals sequential execution only if the snapshot round-trips (C10)
+	"C02": {"C10"},
 	"C03": {"C11"},
-	"C04": {"C12"},
+	// the blocks delivered before the hand-off are read from cached output files: they are what was computed only if a
+	// missing or half-written file is never taken for a complete one (C07)
+	"C04": {"C12", "C07"},
+	// the scheduler starts from "whatever snapshots already exist": the classification of the files found in storage
+	// into Completed / PartialPresent units (FetchStoresState) is decided under C07
+	"C05": {"C07"},
 	"C07": {"C10"},
 	"C09": {"C08"},
 	"C10": {"C18"},
